@@ -32,6 +32,8 @@ fn node_b<I: Interface + 'static>(own: u16, link: I, handlers: &[&[u64]], remain
         let id = proto.add_packet_handler(hb, h[1] != 0).map(|x| x as u64).unwrap_or(0xffff_ffff);
         ids.push(id); idmap.insert(label, id);
     }
+    // handlers flagged as removed are unregistered again before any traffic arrives
+    for (h, id) in handlers.iter().zip(ids.iter()) { if h.len() > 2 && h[2] != 0 { let _ = proto.remove_packet_handler(*id as u32); } }
     let mut rets = vec![];
     for _ in 0..(budget + 8) {
         let was_empty = remaining() == 0;
@@ -111,7 +113,7 @@ pub fn gen_e2e(r: &mut Rng, thorough: bool, cx: &mut Ctx) {
             let gaps: Vec<u64> = match k % 5 { 0 => vec![], 1 => vec![1], 2 => vec![0, 0, 2], 3 => (0..r.range(1, 7)).map(|_| r.below(3)).collect(), _ => vec![0, 0, 0, 0, 3] };
             let mut l = vec![link, own_a as u64, own_b as u64, gaps.len() as u64]; l.extend(&gaps);
             let nh = r.below(5); l.push(nh);
-            for i in 0..nh { l.push(2); l.push(700 + i); l.push(r.chance(1, 3) as u64); }
+            for i in 0..nh { l.push(3); l.push(700 + i); l.push(r.chance(1, 3) as u64); l.push(r.chance(1, 4) as u64); }
             let ne = r.range(1, 8); l.push(ne);
             for _ in 0..ne {
                 let kind = r.below(16);
